@@ -117,8 +117,11 @@ def cells_c06(prop, fe, spec, pk, sh, stats, res, ntrail):
         for reg in (True, False):
             fe.cks_at_init = not reg
             try:
+                plain = set((g.construct, g.symptom.split(':', 1)[1]) for g in res if g.symptom.startswith('registered:' if reg else 'unregistered:'))
                 for f in pipea.run_c01(fe, spec, pk, sh, [], stats, cks_registered=reg):
                     f.prop = prop
+                    if (f.construct, f.symptom) in plain:
+                        continue            # the same failure without the change of registration: reported above
                     f.symptom = ('registered-after-load:' if reg else 'removed-after-load:') + f.symptom
                     if f.construct.startswith('checksum') or f.construct == 'packet':
                         res.append(f)
